@@ -2,6 +2,7 @@ package bifrost_http
 
 import (
 	"context"
+	"net/http"
 	"net/url"
 	"regexp"
 
@@ -45,5 +46,72 @@ func VerifC35HTTPHandler() {
 	rt.Assert("answers iff the path filter passes", (len(res) != 0) == ok)
 	res, err = c.HandleDirective(context.Background(), c35DI{d: c35Other{}})
 	rt.Assert("other directives are ignored", err == nil && len(res) == 0)
+	rt.Reach("end")
+}
+
+type c35Rec struct{ paths []string }
+
+func (r *c35Rec) ServeHTTP(w http.ResponseWriter, req *http.Request) {
+	r.paths = append(r.paths, req.URL.Path)
+}
+
+type c35RH struct {
+	directive.ResolverHandler
+	vals []directive.Value
+}
+
+func (h *c35RH) AddValue(v directive.Value) (uint32, bool) {
+	h.vals = append(h.vals, v)
+	return uint32(len(h.vals)), true
+}
+func (h *c35RH) MarkIdle(bool)         {}
+func (h *c35RH) ClearValues() []uint32 { h.vals = nil; return nil }
+
+// VerifC35HTTPStrip: the handler a matched request is given sees the request path with exactly the
+// first configured prefix that matches removed (when stripping is on), and the unchanged path otherwise.
+func VerifC35HTTPStrip() {
+	rt.SchedBound(0, false)
+	n := rt.IntRange("prefixN", 1, 2)
+	var prefixes []string
+	for i := 0; i < n; i++ {
+		prefixes = append(prefixes, rt.String("prefix", 1, 2))
+	}
+	strip := rt.Bool("strip")
+	inner := &c35Rec{}
+	c := NewHTTPHandlerController(nil, NewHTTPHandlerBuilder(inner), prefixes, strip, nil)
+	ctx, cancel := context.WithCancel(context.Background())
+	_ = c.Execute(ctx)
+	path := rt.String("path", 0, 3)
+	res, err := c.HandleDirective(ctx, c35DI{d: NewLookupHTTPHandler("GET", &url.URL{Path: path}, "")})
+	rt.Assert("no error", err == nil)
+	first := -1
+	for i, p := range prefixes {
+		if first < 0 && c35HasPrefix(path, p) {
+			first = i
+		}
+	}
+	if first < 0 {
+		rt.Reach("no prefix matches")
+		rt.Assert("a path outside every configured prefix is not answered", len(res) == 0)
+		cancel()
+		return
+	}
+	rt.Assert("a path under a configured prefix is answered", len(res) == 1)
+	rh := &c35RH{}
+	rt.Go("resolve", func() { _ = res[0].Resolve(ctx, rh) })
+	rt.Quiesce()
+	rt.Assert("the lookup yields one handler", len(rh.vals) == 1)
+	h, ok := rh.vals[0].(http.Handler)
+	rt.Assert("the value is an http handler", ok)
+	h.ServeHTTP(nil, &http.Request{Method: "GET", URL: &url.URL{Path: path}})
+	rt.Assert("the registered handler is reached once", len(inner.paths) == 1)
+	want := path
+	if strip {
+		want = path[len(prefixes[first]):]
+		rt.Reach("stripped")
+	}
+	rt.Assert("the handler sees the path minus exactly the first matching prefix (or unchanged without stripping)", inner.paths[0] == want)
+	cancel()
+	rt.Quiesce()
 	rt.Reach("end")
 }
